@@ -16,9 +16,41 @@ import numpy as np
 EPS = 1e-12
 
 
+class SpyFloat:
+    """Value returned by ``ScriptedPRNG.random()`` in spy mode.
+
+    The state-vector simulator samples a Kraus operator by ``p = prng.random(); for k: p -= w_k; if p < 0: break``.
+    A SpyFloat records every weight subtracted from it and answers ``< 0`` with True exactly at the scripted
+    operator index, so the branch taken is chosen by the script and its probability is the recorded weight
+    (the quantity the code itself subtracts).  ``>= 0`` (asked after the loop) is True iff the loop never broke.
+    """
+
+    def __init__(self, entry):
+        self.entry = entry
+
+    def __sub__(self, w):
+        self.entry["weights"].append(float(w))
+        return self
+
+    __isub__ = __sub__
+
+    def __lt__(self, other):
+        hit = len(self.entry["weights"]) - 1 == self.entry["k"]
+        if hit:
+            self.entry["hit"] = True
+        return hit
+
+    def __ge__(self, other):
+        return not self.entry.get("hit", False)
+
+    def __float__(self):
+        return 0.5
+
+
 class ScriptedPRNG:
     def __init__(self, script: Sequence[int] = (), vector_script: Optional[Callable] = None,
-                 random_script: Optional[Callable] = None, branch_vectors: int = 0):
+                 random_script: Optional[Callable] = None, branch_vectors: int = 0, spy_random: bool = False):
+        self.spy_random = spy_random
         # branch_vectors=k: a vector draw choice(size<=k) is treated as k independent branching scalar draws
         self.branch_vectors = branch_vectors
         self.script = list(script)
@@ -71,6 +103,16 @@ class ScriptedPRNG:
         return np.array([int(low) + self._branch(np.full(n, 1.0 / n)) for _ in range(cnt)]).reshape(size)
 
     def random(self, size=None):
+        if self.spy_random and size is None:
+            if self.pos < len(self.script):
+                k = int(self.script[self.pos])
+            else:
+                k = 0
+                self.script.append(k)
+            self.pos += 1
+            e = {"kind": "random", "weights": [], "k": k}
+            self.log.append(e)
+            return SpyFloat(e)
         v = 0.5 if self.random_script is None else float(self.random_script(len(self.random_log)))
         self.random_log.append(v)
         if size is not None:
@@ -90,7 +132,10 @@ class ScriptedPRNG:
     def probability(self) -> float:
         pr = 1.0
         for e in self.log:
-            pr *= float(e["p"][e["k"]])
+            if e.get("kind") == "random":
+                pr *= e["weights"][e["k"]] if e.get("hit") and len(e["weights"]) > e["k"] else 0.0
+            else:
+                pr *= float(e["p"][e["k"]])
         return pr
 
 
@@ -102,16 +147,31 @@ def enumerate_branches(run: Callable[[ScriptedPRNG], object], max_branches: int 
     """
     out = []
     stack = [[]]
+    seen = []
     while stack:
         prefix = stack.pop()
         prng = ScriptedPRNG(prefix, **prng_kw)
         res = run(prng)
-        for i in range(len(prefix), len(prng.log)):
+        dead = False
+        for i in range(len(prng.log)):
             e = prng.log[i]
-            for alt in range(len(e["p"])):
-                if alt != e["k"] and e["p"][alt] > EPS:
-                    stack.append(prng.script[:i] + [alt])
-        out.append((prng.probability, list(prng.script[: len(prng.log)]), res, prng))
+            if e.get("kind") == "random":
+                if not e.get("hit"):
+                    dead = True  # scripted index beyond the last Kraus operator: not a real branch
+                    break
+                if i >= len(prefix) or i == len(prefix) - 1:
+                    # operator k was available: also explore k+1 (chain; each prefix is explored once)
+                    if i >= len(prefix) or True:
+                        nxt = prng.script[:i] + [e["k"] + 1]
+                        if nxt not in seen:
+                            seen.append(nxt)
+                            stack.append(nxt)
+            elif i >= len(prefix):
+                for alt in range(len(e["p"])):
+                    if alt != e["k"] and e["p"][alt] > EPS:
+                        stack.append(prng.script[:i] + [alt])
+        if not dead and prng.probability > EPS:
+            out.append((prng.probability, list(prng.script[: len(prng.log)]), res, prng))
         if len(out) + len(stack) > max_branches:
             raise OverflowError("too many branches")
     return out
